@@ -126,7 +126,7 @@ def run(ctx):
     harness(ctx, "TestVerifXbCases", {"CASES": gcases, "TRACE_OUT": trg, "VERIF_LEG": "G-cases"}, timeout=900)
     # ---- leg T: random machines at real scale
     trt = os.path.join(ctx.work, "xb_trace_t.ndjson")
-    harness(ctx, "TestVerifXbRandom", {"TRACE_OUT": trt, "NTRACES": 50 if q else 2500, "VERIF_LEG": "T-random"}, timeout=900)
+    harness(ctx, "TestVerifXbRandom", {"TRACE_OUT": trt, "NTRACES": 60 if q else 1500, "VERIF_LEG": "T-random"}, timeout=900)
     # ---- leg V: the TLA+ monitor judges every recorded event
     tra = os.path.join(ctx.work, "xb_trace_all.ndjson")
     with open(tra, "w") as f:
